@@ -155,3 +155,27 @@ package server
 //@   ensures [rollback] result != nil ==> s.persistOptions.clusterVersion == old(s.persistOptions.clusterVersion)
 //@   ensures [accepted-persisted] result == nil ==> last("kvSave") > old(evclock[0])
 //@   modifies s.persistOptions.clusterVersion, ghost kvhas, ghost kvval
+
+// ---- C14: re-registrations and heartbeats of tombstone stores are refused ----
+//@ func checkStore
+//@   props C14
+//@   requires rc != nil && wfCluster(rc)
+//@   ensures [tombstone-refused] storeAt(rc, storeID) != nil && in(rc.core.Stores.stores, storeID) && sstate(storeAt(rc, storeID)) == 2 ==> result != nil && result.Type == 3
+//@   ensures [others-pass] !(in(rc.core.Stores.stores, storeID) && storeAt(rc, storeID) != nil && sstate(storeAt(rc, storeID)) == 2) ==> result == nil
+//@   option event checkStore
+//@   modifies nothing
+
+//@ opaque (*Server).GetConfig, CheckPDVersion
+//@ havoc github.com/tikv/pd/server/cluster::(*RaftCluster).PutStore, github.com/tikv/pd/server/cluster::(*RaftCluster).HandleStoreHeartbeat, github.com/tikv/pd/server/cluster::(*RaftCluster).GetReplicationMode
+
+//@ func (*Server).PutStore
+//@   props C14
+//@   requires request != nil && reqOK(s) && s.cluster != nil && wfCluster(s.cluster)
+//@   at PutStore 2 assert [not-tombstone] last("checkStore") > 0 && lastint("checkStore") == 0
+//@   modifies *
+
+//@ func (*Server).StoreHeartbeat
+//@   props C14
+//@   requires request != nil && reqOK(s) && s.cluster != nil && wfCluster(s.cluster)
+//@   at HandleStoreHeartbeat 1 assert [not-tombstone] last("checkStore") > 0 && lastint("checkStore") == 0
+//@   modifies *
